@@ -188,12 +188,18 @@ fn process_request_obj(request: &Request, dbs: &Arc<Databases>, client: &mut Cli
                 return Response::Ok {};
             } else {
                 // Validate all dbs are existent
-                let map_dbs = dbs.map.read().unwrap();
-                let missing_dbs = db_names
-                    .clone()
-                    .into_iter()
-                    .map(|db_name| (map_dbs.contains_key(&db_name.to_string()), db_name))
-                    .filter(|db_exists| !db_exists.0);
+                // The guard is given back before the databases are queued: queueing reads the map
+                // again, and a create-db asking for the write lock in between blocks both for ever
+                let missing_dbs: Vec<(bool, String)> = {
+                    let map_dbs = dbs.map.read().unwrap();
+                    db_names
+                        .clone()
+                        .into_iter()
+                        .map(|db_name| (map_dbs.contains_key(&db_name.to_string()), db_name))
+                        .filter(|db_exists| !db_exists.0)
+                        .collect()
+                };
+                let missing_dbs = missing_dbs.into_iter();
 
                 match missing_dbs.clone().count() {
                     0 => {
